@@ -164,6 +164,11 @@ def drive(tier):
         if kk == "exc":
             continue            # already reported through key.pub
         unc, cmp_ = pair
+        # the same secret has been instantiated in both forms before: each form must still be what was asked for
+        R.add("key.pub", {"secret": b2l(sec), "compressed": False}, {"k": "ret", "pub": b2l(unc)}, chain="mainnet", _cost=500)
+        R.add("key.pub", {"secret": b2l(sec), "compressed": True}, {"k": "ret", "pub": b2l(cmp_)}, chain="mainnet", _cost=500)
+        if len(unc) != 65 or len(cmp_) != 33:
+            continue            # reported through the key.pub records above
         x, y = unc[1:33], unc[33:]
         par = y[-1] & 1
         cand += [cmp_, unc, bytes([6 + par]) + x + y, bytes([7 - par]) + x + y, bytes([2 + (1 - par)]) + x,
